@@ -156,6 +156,24 @@ def resolverOf (st : State) (name : Str) : P Resolver :=
   | none => throw "unknown resolver"
 
 /-- build the Sid an operation is about -/
+def sidFromCore (st : State) (j : Json) : P (Except Err Sid) := do
+  match fieldOpt j "s" with
+  | some s => return st.ctx.sidOfString (← str s)
+  | none =>
+  match fieldOpt j "fields" with
+  | some f => return st.ctx.sidOfFields (← dict f)
+  | none =>
+  match fieldOpt j "query" with
+  | some q => return st.ctx.sidOfQuery (← str q)
+  | none =>
+  match fieldOpt j "path" with
+  | some p =>
+    let cfgName ← (match fieldOpt j "config" with | some cj => do pure (some (← str cj)) | none => pure none : P (Option Str))
+    return st.ctx.sidOfPath (← str p) cfgName
+  | none => throw "sid source expected"
+
+
+/-- build the Sid an operation is about -/
 def sidFrom (st : State) (j : Json) : P (Except Err Sid) := do
   match fieldOpt j "s" with
   | some s => return st.ctx.sidOfString (← str s)
@@ -170,6 +188,14 @@ def sidFrom (st : State) (j : Json) : P (Except Err Sid) := do
   | some p =>
     let cfgName ← (match fieldOpt j "config" with | some cj => do pure (some (← str cj)) | none => pure none : P (Option Str))
     return st.ctx.sidOfPath (← str p) cfgName
+  | none =>
+  match fieldOpt j "obj" with
+  | some o =>
+    -- Sid(<Sid object>): a truthy Sid goes through sid_to_sid with its uri, a falsy one gives the empty Sid
+    let inner ← sidFromCore st o
+    return (match inner with
+      | .error e => .error e
+      | .ok x => if x.typed then st.ctx.sidOfString x.uri else .ok Sid.empty)
   | none => throw "sid source expected"
 
 def kwOf (j : Json) : P (List (Str × Option Str)) := listOf (pairOf str optStr) j
@@ -298,6 +324,7 @@ def step (st : State) (j : Json) : P Json := do
   | "spec_plain" => return result jsid (.ok (Spec.plainSid e c.cfg.sid.templates (← fieldStr j "s")))
   | "spec_forced" =>
     return result jsid (.ok (Spec.forcedSid e c.cfg.sid.templates (← fieldStr j "ty") (← fieldStr j "rest")))
+  | "spec_hier_ok" => return result jbool (.ok (Spec.sidHierOk e c.cfg.sid.templates))
   | "spec_table_ok" => return result jbool (.ok (Spec.sidTableOk e c.cfg.sid.templates))
   | "extrapolate_templates" =>
     return result jdict (.ok (ConfUtil.extrapolateTemplates (← fieldStr j "sep")
